@@ -10,7 +10,7 @@ from . import streambase as sb
 ID = 'C03'
 LEVEL = 'exploration'
 RULE = ('seeded scenarios x seeded inputs x a family of deliveries of the same bytes: source kind (user input routine, stdio fread through a '
-        'simulated FILE*, stdio interactive getc path, yy_scan_bytes, yy_scan_string, yy_scan_buffer) x buffer size (1..9, 15-17, 63, 16384) x '
+        'simulated FILE*, stdio interactive getc path, read(2) of %option read, yy_scan_bytes, yy_scan_string, yy_scan_buffer) x buffer size (1..9, 15-17, 63, 16384) x '
         'read-size schedule (all at once, one byte, random, and the boundary sweep [p,1,1,..] / [p,inf] for every offset p of the input). '
         'Oracle 1 (differential): action log (rule, yytext, yyleng, yystart, yylineno) and yylex return values equal those of the baseline '
         'delivery (whole input in one in-memory buffer). Oracle 2: an interactive-mode scanner fed one byte per request issues no request '
@@ -58,7 +58,7 @@ def delivery_plan(rng, sc, data, acts, kind, size, sched, begin):
     it.top.append(Op('INIT'))
     if begin:
         it.top.append(Op('BEGIN', a=begin))
-    if kind in ('user', 'fread', 'getc'):
+    if kind in ('user', 'fread', 'getc', 'read'):
         p.sources = [Source(data, sched, kind='user' if kind == 'user' else 'stdio')]
         it.top.append(Op('SWITCHNEW', a=size))
         if kind == 'getc':
@@ -141,10 +141,11 @@ def overread_check(sc, plan, rv):
 
 
 def exe_for(ctx, sc, kind):
-    if kind in ('fread', 'getc'):
+    if kind in ('fread', 'getc', 'read'):
         sc2 = copy.copy(sc)
         sc2._matchers = {}
         sc2.user_input = False
+        sc2.use_read = (kind == 'read')     # %option read: yyread() is read(fileno(yyin), ...)
         return ctx.build(sc2), sc2
     return ctx.build(sc), sc
 
@@ -163,6 +164,7 @@ def work(ctx, idx):
             wr.notes.append('scn %d unbuildable (%s): %s' % (idx, b.stage, b.msg.strip()[:200]))
         return wr
     bs, sc_s = exe_for(ctx, sc, 'fread')
+    br, sc_r = exe_for(ctx, sc, 'read')
     wr.scenarios = 1
     per_class = collections.Counter()
     hangs = 0
@@ -189,6 +191,7 @@ def work(ctx, idx):
                 dels.append(('user', irng.choice(BUF_SIZES), big_sched()))
             dels.append(('fread', 16384, [1 << 20]))
             dels.append(('fread', irng.choice(BUF_SIZES), big_sched()))
+            dels.append(('read', irng.choice(BUF_SIZES), big_sched()))
         else:
             for p in range(1, len(data) + 1):
                 dels.append(('user', irng.choice(BUF_SIZES), [p, 1]))
@@ -200,17 +203,22 @@ def work(ctx, idx):
             dels.append(('fread', irng.choice(BUF_SIZES), [1 << 20]))
             dels.append(('fread', irng.choice(BUF_SIZES), gen_sched(irng)))
             dels.append(('getc', irng.choice(BUF_SIZES), [1]))
+            dels.append(('read', irng.choice(BUF_SIZES), [1 << 20]))
+            dels.append(('read', irng.choice(BUF_SIZES), gen_sched(irng)))
+            dels.append(('read', irng.choice(BUF_SIZES), [1]))
             dels.append(('bytes', 0, None))
             dels.append(('buffer', 0, None))
             if 0 not in data:
                 dels.append(('string', 0, None))
-        plans_u, plans_s = [], []
+        plans_u, plans_s, plans_r = [], [], []
         for di, (kind, size, sched) in enumerate(dels):
             p = delivery_plan(irng, sc, data, acts, kind, size, sched, begin)
-            (plans_s if kind in ('fread', 'getc') else plans_u).append(('i%dd%d' % (ii, di), p, kind))
+            (plans_r if kind == 'read' else plans_s if kind in ('fread', 'getc') else plans_u).append(('i%dd%d' % (ii, di), p, kind))
         basep = base_plan(plans_u[0][1])
         runs_u = common.run_batch(b.exe, [('base', basep.text())] + [(k, p.text()) for k, p, _ in plans_u]) if b.ok else {}
         runs_s = common.run_batch(bs.exe, [(k, p.text()) for k, p, _ in plans_s]) if bs.ok and plans_s else {}
+        runs_s.update(common.run_batch(br.exe, [(k, p.text()) for k, p, _ in plans_r]) if br.ok and plans_r else {})
+        plans_s = plans_s + plans_r
         # a scanner that loops costs the wall-clock backstop per run: three such runs settle the scenario
         hangs += sum(1 for r in list(runs_u.values()) + list(runs_s.values()) if r.status == 'signal=14')
         rb = runs_u.get('base')
@@ -225,7 +233,7 @@ def work(ctx, idx):
             wr.evaluations += 1
             h = rv.loghash()
             wr.hashes.add(h)
-            scx = sc_s if kind in ('fread', 'getc') else sc
+            scx = sc_r if kind == 'read' else sc_s if kind in ('fread', 'getc') else sc
             viols, mv = compare(scx, p, rb, rv)
             if mv.ntok >= 2 and mv.reads >= 2:
                 wr.nontrivial.add(h)
